@@ -468,21 +468,21 @@ func c09BFS(xs, ws []float64, depth int, r *core.Rec) int64 {
 				var s *stats.Sample
 				p := core.Catch(func() { s = build(ops, scratch) })
 				r.Trans(1)
+				// Every transition is checked through the replayable history check (an
+				// operation such as Copy returns to an already seen state, but its own
+				// post-conditions - no shared storage - belong to the transition).
+				hc.Ops = ops
+				r.Case("samplehist", hc)
+				if len(xs) >= 2 {
+					r.NT()
+				}
+				r.Try(func() { c09Hist(hc, r) })
 				if p == nil {
 					k := c09Key(s)
 					if seen[k] {
 						continue
 					}
 					seen[k] = true
-				}
-				hc.Ops = ops
-				r.Case("samplehist", hc)
-				if len(xs) >= 2 {
-					r.NT()
-				}
-				// the replayable check re-executes the whole history with every observer after every op
-				r.Try(func() { c09Hist(hc, r) })
-				if p == nil {
 					next = append(next, node{ops})
 				}
 			}
@@ -737,6 +737,15 @@ func c09Run(c *core.Ctx) {
 	r.Bound("sample_histories", fmt.Sprintf("initial samples of length<=3 over {1,2,2,5} x weights nil/{0,1,2}; ops {sort,copy,mark,reverse,rotate} to depth %d", depth))
 	// vec
 	vc := &C09VecCase{}
+	// sizes around chunking thresholds an implementation might introduce
+	for _, num := range []int{255, 256, 257, 511, 512, 513, 1023, 1024, 1025, 1536, 2000, 4096, 4097, 10000} {
+		if !c.Mine() {
+			continue
+		}
+		vc.Lo, vc.Hi, vc.Num = -1, 3, num
+		r.Case("vec", vc)
+		r.Try(func() { c09Vec(vc, r) })
+	}
 	for _, lo := range []float64{-3, 0, 0.1, 1, 1e9} {
 		for _, hi := range []float64{-3, 0, 0.7, 1, 10, 1e9 + 8} {
 			for num := 0; num <= 9; num++ {
